@@ -9,7 +9,7 @@
 (* Expression trees are records with a field k (node kind), exactly the     *)
 (* JSON the harness produces from the real parser's tree (astconv).         *)
 (* Eval threads a state record st = [sc, heap, pt, log, xt, pend, v2].      *)
-EXTENDS F64, FiniteSets, TLC
+EXTENDS Patterns
 
 (* ------------------------------- values --------------------------------- *)
 VNil == [t |-> "nil"]
@@ -209,6 +209,16 @@ CastV(v, T) ==
                                                     [] v.t = "float" -> ~FIsZero(v.f) [] v.t = "str" -> v.s \in ParseBoolTrue
                                                     [] OTHER -> FALSE)]
        [] OTHER -> [ok |-> FALSE, v |-> VNil]
+
+
+(* ---------------------- catalog lookups (C12 engines) ------------------- *)
+CatFind(cat, P(_)) == LET S == {i \in 1..Len(cat) : P(cat[i])} IN IF S = {} THEN [known |-> FALSE] ELSE [known |-> TRUE, e |-> cat[CHOOSE i \in S : TRUE]]
+GrokLookup(p, env, subj, trim) == LET P(x) == x.p = p /\ x.env = env /\ x.s = subj /\ x.trim = trim IN CatFind(GrokCatalog, P)
+TimeLookup(subj, tz) == LET P(x) == x.s = subj /\ x.tz = tz IN CatFind(TimeCatalog, P)
+XmlLookup(doc, xp) == LET P(x) == x.doc = doc /\ x.xp = xp IN CatFind(XmlCatalog, P)
+DatetimeLookup(v, prec, fmt) == LET P(x) == x.v = v /\ x.prec = prec /\ x.fmt = fmt IN CatFind(DatetimeCatalog, P)
+SqlLookup(q) == LET P(x) == x.q = q IN CatFind(SqlCatalog, P)
+PLMSG == "pl_msg"
 
 (* ----------------------------- operators -------------------------------- *)
 Ok(v) == [ok |-> TRUE, v |-> v]
@@ -705,5 +715,66 @@ EvalCall(e, st) ==
                             ELSE LET f == Sprintf(fr.v.s, 1, a.vs, 1, <<>>) IN
                                  IF ~f.ok \/ \E j \in 1..Len(a.vs) : a.vs[j].t = "ref" THEN E(a.st, "unspec-format")
                                  ELSE R([a.st EXCEPT !.log = Append(@, [ev |-> "printf", s |-> f.s])], VVoid)))
+      [] e.f = "add_pattern" -> R(st, VVoid)          \* load-time only (Patterns!Annotate)
+      [] e.f = "grok" ->
+           (LET kn == KeyNameOf(e.as[1])
+                g == GetKey(st, kn.n)
+                lg == [st EXCEPT !.log = Append(@, [ev |-> "call", k |-> "grok"])] IN
+            IF ~g.found THEN R(lg, VBool(FALSE))
+            ELSE IF g.v.t \in {"ref", "json", "tagstr"} THEN E(st, "unspec-subject")
+            ELSE LET x == ToStrV(g.v) IN
+                 IF ~x.ok THEN E(st, "unspec-subject")
+                 ELSE LET q == GrokLookup(e.as[2].s, e.env, x.s, IF Len(e.as) = 3 THEN e.as[3].b ELSE TRUE) IN
+                      IF ~q.known THEN E(st, "unspec-engine")
+                      ELSE IF ~q.e.m THEN R(lg, VBool(FALSE))
+                      ELSE LET RECURSIVE Store(_, _)
+                               Store(i, pt) == IF i > Len(q.e.caps) THEN pt ELSE Store(i + 1, PtSetField(pt, q.e.caps[i].n, q.e.caps[i].v))
+                           IN R([lg EXCEPT !.pt = Store(1, @)], VBool(TRUE)))
+      [] e.f = "xml" ->
+           (LET g == GetKey(st, KeyNameOf(e.as[1]).n)
+                lg == [st EXCEPT !.log = Append(@, [ev |-> "call", k |-> "xml"])] IN
+            IF ~g.found THEN R(lg, VVoid)
+            ELSE IF g.v.t \in {"ref", "json", "tagstr"} THEN E(st, "unspec-subject")
+            ELSE LET x == ToStrV(g.v) IN
+                 IF ~x.ok THEN E(st, "unspec-subject")
+                 ELSE LET q == XmlLookup(x.s, e.as[2].s) IN
+                      IF ~q.known THEN E(st, "unspec-engine")
+                      ELSE IF ~q.e.ok THEN R(lg, VVoid)
+                      ELSE R([lg EXCEPT !.pt = PtSetField(@, Alias(KeyNameOf(e.as[3]).n), VStr(q.e.out))], VVoid))
+      [] e.f = "sql_cover" ->
+           (LET kn == KeyNameOf(e.as[1])
+                g == GetKey(st, kn.n)
+                lg == [st EXCEPT !.log = Append(@, [ev |-> "call", k |-> "sql_cover"])] IN
+            IF ~g.found THEN R(lg, VVoid)
+            ELSE IF g.v.t \in {"ref", "json", "tagstr"} THEN E(st, "unspec-subject")
+            ELSE LET x == ToStrV(g.v) IN
+                 IF ~x.ok THEN E(st, "unspec-subject")
+                 ELSE LET q == SqlLookup(x.s) IN
+                      IF ~q.known THEN E(st, "unspec-engine")
+                      ELSE IF ~q.e.ok THEN R(lg, VVoid)
+                      ELSE R([lg EXCEPT !.pt = PtSetField(@, Alias(kn.n), VStr(q.e.out))], VVoid))
+      [] e.f = "datetime" ->
+           (LET kn == KeyNameOf(e.as[1])
+                g == GetKey(st, kn.n)
+                lg == [st EXCEPT !.log = Append(@, [ev |-> "call", k |-> "datetime"])] IN
+            IF ~g.found THEN R(lg, VVoid)
+            ELSE IF g.v.t # "int" THEN E(st, "unspec-subject")
+            ELSE LET q == DatetimeLookup(g.v.i, e.as[2].s, e.as[3].s) IN
+                 IF ~q.known THEN E(st, "unspec-engine")
+                 ELSE IF ~q.e.ok THEN E(st, "data-error")
+                 ELSE R([lg EXCEPT !.pt = PtSetField(@, Alias(kn.n), VStr(q.e.out))], VVoid))
+      [] e.f = "default_time" ->
+           (LET kn == KeyNameOf(e.as[1])
+                g == GetKey(st, kn.n)
+                lg == [st EXCEPT !.log = Append(@, [ev |-> "call", k |-> "default_time"])] IN
+            IF ~g.found THEN R(lg, VVoid)
+            ELSE IF g.v.t \in {"ref", "json", "tagstr"} THEN E(st, "unspec-subject")
+            ELSE LET x == ToStrV(g.v) IN
+                 IF ~x.ok THEN E(st, "unspec-subject")
+                 ELSE LET q == TimeLookup(x.s, IF Len(e.as) >= 2 THEN e.as[2].s ELSE <<>>) IN
+                      IF ~q.known THEN E(st, "unspec-engine")
+                      ELSE IF q.e.ok THEN R([lg EXCEPT !.pt = [PtDel(@, Alias(kn.n)) EXCEPT !.time = q.e.ns]], VVoid)
+                      \* failure: the point keeps its time and key; a failure note appears under pl_msg
+                      ELSE R([lg EXCEPT !.pt = PtSetField(@, PLMSG, [t |-> "anystr"])], VVoid))
       [] OTHER -> E(st, "unknown-function")
 =============================================================================
